@@ -142,7 +142,7 @@ def _cases(which, ra):
 
 
 def phases(tier):
-    n_ac, n_other = (6000, 1500) if tier == "quick" else (300000, 60000)
+    n_ac, n_other = (6000, 1500) if tier == "quick" else (120000, 25000)
     out = [Phase("long-inputs", "enum", items=lambda: _long_items(tier), exhaustive=True, distinct=True, chunk=4)]
     for which, n in (("ac", n_ac), ("hs", n_other), ("ref", n_other)):
         for ra in (False, True):
